@@ -1,3 +1,10 @@
--- This module serves as the root of the `CuriesVerif` library.
--- Import modules here that should be built as part of the library.
+-- Root of the `CuriesVerif` library: everything that `lake build` must check.
 import CuriesVerif.Basic
+import CuriesVerif.Model.Converter
+import CuriesVerif.Model.Incremental
+import CuriesVerif.Model.Run
+import CuriesVerif.Codec
+import CuriesVerif.Program
+import CuriesVerif.Spec.Answer
+import CuriesVerif.Check
+import CuriesVerif.Properties.All
